@@ -315,7 +315,7 @@ type knownFinding struct {
 }
 
 func loadKnownFindings() []knownFinding {
-	b, err := os.ReadFile(filepath.Join(verifRoot(), "known_findings.json"))
+	b, err := os.ReadFile(filepath.Join(envOr("ZSIM_SRC", verifRoot()), "known_findings.json"))
 	if err != nil {
 		return nil
 	}
